@@ -76,6 +76,9 @@ func sendCase(c *core.Ctx, sig string, cf ccfg, ops []cop, note string) []copRes
 			continue
 		}
 		x := rs[i]
+		if x.ret == "hang" {
+			c.Violation("hang", sig+"-hang", "Send did not return within 10 s plus twice its timeout ("+note+")", map[string]interface{}{"cfg": cf.model(), "op": trunc(o.model(cf), 400)})
+		}
 		if x.ret == "panic" {
 			c.Violation("panic", sig+"-panic", "Send panicked ("+note+")", map[string]interface{}{"cfg": cf.model(), "op": trunc(o.model(cf), 400)})
 		}
